@@ -33,7 +33,12 @@ func c20Gen(r *kit.Rng) *sched.Scenario {
 	caps.MaxNodes = r.Range(10, 25)
 	var s *schema.Node
 	rich := r.Chance(1, 3) // two-module schema with every leaf type (identityref, bits, union, ...)
-	if rich {
+	acc := !rich && r.Chance(1, 5)
+	if acc {
+		// the accessor-fixture schema: its rpcs are served by Go methods of every client's own store object
+		st0, _ := store.New("nacc")
+		s = schema.Generate(r, st0.Caps(), "m", true, true)
+	} else if rich {
 		s = schema.GenerateRich(r, "m", r.Range(25, 45), r.Range(2, 3))
 	} else {
 		s = schema.Generate(r, caps, "m", r.Chance(1, 2), true)
@@ -52,6 +57,10 @@ func c20Gen(r *kit.Rng) *sched.Scenario {
 		}
 		if rich {
 			sk = "ctl" // the real stores do not hold every leaf type
+			st, _ = store.New(sk)
+		}
+		if acc {
+			sk = "nacc"
 			st, _ = store.New(sk)
 		}
 		o := st.GenOpts()
@@ -84,6 +93,13 @@ func c20Gen(r *kit.Rng) *sched.Scenario {
 					kind = "delete"
 				}
 				cl.Ops = append(cl.Ops, sched.Op{Kind: kind, Sess: &op})
+			case acc && x < 8:
+				body := fmt.Sprintf(`{"aa":"client%d-%d","ab":%d}`, c, i, r.Range(1, 99))
+				path := "zzact"
+				if r.Chance(1, 4) {
+					path, body = "zznoin", ""
+				}
+				cl.Ops = append(cl.Ops, sched.Op{Kind: "action", Path: path, Query: body})
 			case x < 7:
 				cl.Ops = append(cl.Ops, sched.Op{Kind: "export"})
 			default:
